@@ -30,7 +30,7 @@ package bpmn
 //@ spec func shareGets(k int, n int, m int) bool = k < shareHi(k, n, m) && shareHi(k, n, m) <= m
 
 //@ func distributeFlows
-//@   prop C03 C05
+//@   prop C03 C05 C01
 //@   modifies fresh elems([]int)
 //@   ensures [count] evlen == old(evlen) + len(awaitingActions)
 //@   ensures [only-sends] unchangedKind(Call) && unchangedKind(Trace) && unchangedKind(Spawn)
@@ -99,7 +99,7 @@ package bpmn
 //@   ensures chancap(gw.mch) == 2*len(wr.incoming) + 1
 
 //@ func (*parallelGateway).flowWhenReady
-//@   prop C03
+//@   prop C03 C01
 //@   requires gw.wiring != nil
 //@   requires 0 <= gw.reportedIncomingFlows && gw.reportedIncomingFlows <= gw.noOfIncomingFlows && len(gw.awaitingActions) == gw.reportedIncomingFlows
 //@   modifies gw.reportedIncomingFlows, gw.awaitingActions, fresh elems([]chan IAction), fresh elems([]*SequenceFlow), fresh elems([]int)
@@ -137,7 +137,7 @@ package bpmn
 //@   ensures gw.noOfIncomingFlows == old(gw.noOfIncomingFlows) && gw.wiring == old(gw.wiring) && gw.mch == old(gw.mch)
 
 //@ func (*parallelGateway).run
-//@   prop C03 C07
+//@   prop C03 C07 C01
 //@   requires gw.wiring != nil && pgInv(gw) && gw.noOfIncomingFlows >= 1
 //@   ensures [cancel-trace-then-sender-done] evlen >= old(evlen) + 3 &&
 //@             isRecv(ev(evlen - 3)) &&
@@ -754,7 +754,7 @@ package bpmn
 // gateway_exclusive.go (C04): the probe protocol, step by step
 
 //@ func (*exclusiveGateway).run
-//@   prop C04 C07
+//@   prop C04 C07 C01
 //@   ensures [sender-released-exactly-once-on-exit @C07] count(Call, code("tracing|ISenderHandle.Done")) == old(count(Call, code("tracing|ISenderHandle.Done"))) + 1
 //@   requires gw.wiring != nil && gw.probing != nil
 //@   recvinv gatewayProbingReport: forall a int :: off(msg.result) <= a && a < off(msg.result) + len(msg.result) ==>
@@ -878,7 +878,7 @@ package bpmn
 //@   pairCount(heap("E:id.Id", "(Array Int (Array Int Iface))")[base(gw.arrived)], off(gw.arrived), na, heap("E:id.Id", "(Array Int (Array Int Iface))")[base(gw.awaiting)], off(gw.awaiting), len(gw.awaiting))
 
 //@ func (*inclusiveGateway).trySync
-//@   prop C05
+//@   prop C05 C01
 //@   requires gw.activated != nil
 //@   modifies gw.synchronized
 //@   ensures [releases-no-sender] count(Call, code("tracing|ISenderHandle.Done")) == old(count(Call, code("tracing|ISenderHandle.Done")))
@@ -913,7 +913,7 @@ package bpmn
 //@   ensures result == tracker.activityCh
 
 //@ func (*inclusiveGateway).run
-//@   prop C05 C07
+//@   prop C05 C07 C01
 //@   ensures [sender-released-exactly-once-on-exit @C07] count(Call, code("tracing|ISenderHandle.Done")) == old(count(Call, code("tracing|ISenderHandle.Done"))) + 1
 //@   requires gw.wiring != nil && gw.flowTracker != nil
 //@   requires [the-tracker's-activity-channel-is-not-the-context's] gw.flowTracker.activityCh != ctxdone(ctx)
@@ -955,6 +955,19 @@ package bpmn
 //@         evlen == old(evlen) + 2 && isTrace(ev(old(evlen) + 1)) && is(evval(ev(old(evlen) + 1)), ErrorTrace) &&
 //@         is(evval(ev(old(evlen) + 1)).(ErrorTrace).Error, InclusiveNoEffectiveSequenceFlows) &&
 //@         evval(ev(old(evlen) + 1)).(ErrorTrace).Error.(InclusiveNoEffectiveSequenceFlows).InclusiveGateway == gw.element
+//@     iter ensures [a-token-reaching-an-idle-join-starts-an-activation-in-which-it-alone-has-arrived]
+//@       let q := evval(ev(old(evlen))).(nextActionMessage) in
+//@       isRecv(ev(old(evlen))) && evch(ev(old(evlen))) == gw.mch && is(evval(ev(old(evlen))), nextActionMessage) &&
+//@       !old(gw.synchronized) && old(gw.activated) == nil ==>
+//@         gw.activated != nil && gw.activated.flow == q.flow && gw.activated.response == q.response &&
+//@         len(gw.arrived) == 1 && gw.arrived[0] == q.flow.Id() && len(gw.sync) == 0
+//@     iter ensures [a-further-token-is-added-to-those-that-have-arrived]
+//@       let q := evval(ev(old(evlen))).(nextActionMessage) in
+//@       isRecv(ev(old(evlen))) && evch(ev(old(evlen))) == gw.mch && is(evval(ev(old(evlen))), nextActionMessage) &&
+//@       !old(gw.synchronized) && old(gw.activated) != nil ==>
+//@         gw.activated == old(gw.activated) && len(gw.arrived) == old(len(gw.arrived)) + 1 && gw.arrived[len(gw.arrived) - 1] == q.flow.Id() &&
+//@         (forall a int :: 0 <= a && a < old(len(gw.arrived)) ==> gw.arrived[a] == old(gw.arrived[a])) &&
+//@         len(gw.sync) == old(len(gw.sync)) + 1 && gw.sync[len(gw.sync) - 1] == q.response
 //@   loop 2 range m.result
 //@     invariant count(Call, code("tracing|ISenderHandle.Done")) == old(count(Call, code("tracing|ISenderHandle.Done")))
 //@     invariant activity != ctxdone(ctx)
